@@ -12,8 +12,9 @@
    illegal Python the model does not cover: prefixes, triple quotes, octal, \N \u \U
    escapes, backslash-CR).  `parse_literal` is `ast.literal_eval` on such a literal.
 
-   `bare_dq` is the bare double-quote splice used where the library does not use
-   repr (environ/wizard.py, F21).  No proofs in this file. *)
+   `bare_dq` is a bare double-quote splice (what environ/wizard.py did before the F21
+   repair): the theorems about it show why every splice has to go through repr.
+   No proofs in this file. *)
 From DW Require Export PyStr.
 
 Definition c_sq : ascii := ch 39.
@@ -133,7 +134,7 @@ Definition parse_literal (s : pstr) : option pstr :=
 Definition no_quote_head (rest : pstr) : bool :=
   match rest with [] => true | c :: _ => negb (is_quote c) end.
 
-(* ---- the bare-quote splice (F21) ----------------------------------------- *)
+(* ---- a bare-quote splice (former F21 / F5) ------------------------------- *)
 Definition bare_dq (s : pstr) : pstr := c_dq :: s ++ [c_dq].
 
 (* characters that a bare double-quote splice inside an f-string transports unchanged *)
